@@ -44,7 +44,12 @@ def generate(rng, tier):
     elif rng.random() < 0.15:
         args.append("-n")
     target = scen.cmd("create", "@R", *args)
-    return {"world": env, "ops": setup, "target": target,
+    follow = None
+    if files and rng.random() < 0.3:
+        # what runs next is not the same command again but a smaller one (a single file): its manifest is shorter than
+        # whatever the interrupted run left behind
+        follow = scen.cmd("create", "@R", "-h", fmts[0], "-sf", "@R/" + rng.choice(files))
+    return {"world": env, "ops": setup, "target": target, "followup": follow,
             "kills": "all" if tier == "thorough" else "sample", "kill_seed": rng.getrandbits(32)}
 
 
@@ -54,7 +59,7 @@ def _file_class(rel):
         return "chain"
     if b.endswith(".mhl"):
         return "manifest"
-    if b.endswith(".mhl.tmp"):
+    if b.endswith(".mhl.tmp") or b == "ascmhl_hashlist.tmp":
         return "manifest-tmp"
     if b.startswith("ascmhl_chain.xml."):
         return "chain-tmp"
@@ -270,11 +275,19 @@ def _check_after_kill(sc, ctx, w, wk, kl, eff, pre_files, pre_hist, full_files, 
                          "cause": _fail_cause(r, empty_asc), **where},
                         f"after kill {kl}: {name} -> {r.brief()} (allowed {allowed}); {r.stderr[-300:]} {r.extra.get('abort_tb','')[-400:]}")
             return
-    r, _ = scen.run_op(wk, sc["target"])
-    if r.outcome != full_outcome:
-        V({"kind": "next-command-fails", "cmd": "create", "cause": _fail_cause(r, empty_asc), **where},
-                    f"after kill {kl}: repeated create -> {r.brief()} (expected {full_outcome}); {r.stderr[-300:]} {r.extra.get('abort_tb','')[-400:]}")
-        return
+    if sc.get("followup"):
+        r, _ = scen.run_op(wk, sc["followup"])
+        if r.outcome[0] != "exit" or r.outcome[1] not in (0, 11):
+            V({"kind": "next-command-fails", "cmd": "create-sf", "cause": _fail_cause(r, empty_asc), **where},
+              f"after kill {kl}: {sc['followup']['argv']} -> {r.brief()}; {r.stderr[-300:]} {r.extra.get('abort_tb','')[-400:]}")
+            return
+        ctx.probe("smaller_create_after_kill")
+    else:
+        r, _ = scen.run_op(wk, sc["target"])
+        if r.outcome != full_outcome:
+            V({"kind": "next-command-fails", "cmd": "create", "cause": _fail_cause(r, empty_asc), **where},
+              f"after kill {kl}: repeated create -> {r.brief()} (expected {full_outcome}); {r.stderr[-300:]} {r.extra.get('abort_tb','')[-400:]}")
+            return
     # 5. bounded recovery: after the repeated create everything loads, numbering has no gap
     r = wk.run_cmd(["info", wk.root])
     if r.outcome != ("exit", 0):
@@ -310,6 +323,8 @@ def _fail_cause(r, empty_asc):
 
 
 def shrink_candidates(sc):
+    if sc.get("followup"):
+        yield dict(sc, followup=None)
     # fewer setup ops
     for ops in ddmin_list(sc["ops"]):
         c = dict(sc)
@@ -317,7 +332,7 @@ def shrink_candidates(sc):
         yield c
     # smaller tree
     protected = set()
-    for o in sc["ops"] + [sc["target"]]:
+    for o in sc["ops"] + [sc["target"]] + ([sc["followup"]] if sc.get("followup") else []):
         if scen.is_cmd(o):
             for a in o["argv"]:
                 if isinstance(a, str) and a.startswith("@R/"):
